@@ -79,8 +79,8 @@ CLAIMS = {
          'the same value, a second group for a seen tag is DuplicateTag of that tag, all missing mandatory tags are named sorted, an unknown tag ends the loop handing back itself and what '
          'follows), INSTANTIATED for the decidable class `canon_anyorder`: for every layout and value of the class, every permutation of the tagged groups decodes to that value, also inside '
          'an APDU with any suffix (canon_anyorder_sound, canon_cmd_anyorder); every shipped layout with tagged fields is inside the class; for the class also: a second copy of any present group is rejected naming its tag, removing any subset names exactly the absent mandatory tags (canon_duplicate_rejected, canon_missing_named). Tie: all permutations up to 5/6 present groups '
-         '(sampled above), a duplicate at every position, every removal subset up to 3, one- and two-byte foreign tags at every group boundary, on all shipped types; model vs '
-         'implementation plus an oracle computed from the layout.', "DESIGN.md section 6 C13, section 16.3"),
+         '(sampled above), a duplicate at every position, every removal subset up to 3, one- and two-byte foreign tags at every group boundary and at every group boundary INSIDE every nested container, on all shipped types; model vs '
+         'implementation plus an oracle computed from the layout. One OPEN known finding (known_findings.json, printed as KNOWN-FINDING; C13_refuted_for_nested_collision): a foreign tag inside a nested container whose number is a not yet seen field of the enclosing struct is decoded as that field.', "DESIGN.md section 6 C13, section 16.3"),
  "C01": ('Coq, FULL: for EVERY layout (any field list over the attribute grammar) and EVERY value of the decidable class `canon` (CanonClass.v: positional before tagged, '
          'distinct representable tags, self-delimiting or context-checked fields, Option / Vec / nested structs to any depth) serialising gives exactly the bytes `canon` computes and '
          'deserialising gives back exactly the value with nothing left, any suffix behind the APDU handed back (canon_cmd_roundtrip, canon_struct_roundtrip, canon_sound); whole value '
